@@ -166,6 +166,31 @@ def find_reads(x, B):
 class DecPath:
     def __init__(self, kn, consumed, value, B, store, interp):
         self.kn = kn
+        self.cursor = None
+        # a decoder that reports its loop cursor: the loop ran until the
+        # cursor reached the declared end E (path fact not(cursor < E));
+        # on encoder-produced data the elements end exactly at E (their own
+        # pairs), so the count reported is E
+        if isinstance(consumed, Sym) and consumed.op == 'typed' and \
+                isinstance(consumed.args[0], Sym) and \
+                consumed.args[0].op in ('loopvar', 'loopattr'):
+            for a in kn.atoms:
+                e_ = None
+                if isinstance(a, Sym) and a.op == 'not' and \
+                        isinstance(a.args[0], Sym) and \
+                        a.args[0].op == 'lt' and \
+                        a.args[0].args[0] is consumed:
+                    e_ = a.args[0].args[1]
+                elif isinstance(a, Sym) and a.op == 'ge' and \
+                        a.args[0] is consumed:
+                    e_ = a.args[1]
+                elif isinstance(a, Sym) and a.op == 'le' and \
+                        a.args[1] is consumed:
+                    e_ = a.args[0]
+                if e_ is not None:
+                    self.cursor = consumed
+                    consumed = e_
+                    break
         self.consumed = consumed
         self.value = value
         self.B = B
